@@ -26,3 +26,32 @@ def copy_op_fields(b, i):
     p7 = p6 + (1 if cmd & 0x40 else 0)
     size = s0 + 256 * s1 + 65536 * s2
     return (o0 + 256 * o1 + 65536 * o2 + 16777216 * o3, 0x10000 if size == 0 else size, p7)
+
+
+def is_hex1(c):
+    """c is an ASCII hexadecimal digit."""
+    return (48 <= c and c <= 57) or (65 <= c and c <= 70) or (97 <= c and c <= 102)
+
+
+def is_lhex1(c):
+    """c is a lower-case ASCII hexadecimal digit (what git emits in pkt-line lengths)."""
+    return (48 <= c and c <= 57) or (97 <= c and c <= 102)
+
+
+def hexval1(c):
+    """value of the hexadecimal digit c."""
+    return c - 48 if c <= 57 else (c - 55 if c <= 70 else c - 87)
+
+
+def is_hex4(s, i):
+    """s[i:i+4] are four hexadecimal digits."""
+    return is_hex1(s[i]) and is_hex1(s[i + 1]) and is_hex1(s[i + 2]) and is_hex1(s[i + 3])
+
+
+def is_lhex4(s, i):
+    return is_lhex1(s[i]) and is_lhex1(s[i + 1]) and is_lhex1(s[i + 2]) and is_lhex1(s[i + 3])
+
+
+def hex4val(s, i):
+    """value of the four hexadecimal digits s[i:i+4] (git's packet_length())."""
+    return 4096 * hexval1(s[i]) + 256 * hexval1(s[i + 1]) + 16 * hexval1(s[i + 2]) + hexval1(s[i + 3])
